@@ -728,7 +728,7 @@ Local Notation is_a t T := (mkCtor t (RSameCls T) [ "_" ::: ty T ]).
    (the fields of each constructor: spec_TransactionOrdinary ... above; the tag is read as load_bits(3)
    then, unless it is 001, load_bit()) *)
 Definition spec_TransactionDescr : tlayout :=
-  mkType (TagChunks [CkBits 3; CkBit])
+  mkType (TagChunks [(CkBits 3, true); (CkBit, true)])
     [ is_a (bin "0000") "TransactionOrdinary";
       is_a (bin "0001") "TransactionStorage";
       is_a (bin "001") "TransactionTickTock";
@@ -835,7 +835,7 @@ Definition spec_ShardAccounts : tlayout :=
    msg_import_deferred_tr$00101 in_msg:^MsgEnvelope out_msg:^MsgEnvelope = InMsg;
    (the tag is read as load_bits(3) then, for 001, load_bits(2)) *)
 Definition spec_InMsg : tlayout :=
-  mkType (TagChunks [CkBits 3; CkBits 2])
+  mkType (TagChunks [(CkBits 3, true); (CkBits 2, false)])
     [ mkCtor (bin "000") (RObj "InMsg" [("in_msg", CNone); ("type_", CStr "msg_import_ext")])
         [ "msg" ::: ^"MessageAny"; "transaction" ::: ^"Transaction" ];
       mkCtor (bin "010") (RObj "InMsg" [("in_msg", CNone); ("type_", CStr "msg_import_ihr")])
@@ -857,6 +857,106 @@ Definition spec_InMsg : tlayout :=
       mkCtor (bin "00101")
         (RObj "InMsg" [("msg", CNone); ("transaction", CNone); ("type_", CStr "msg_import_deferred_tr")])
         [ "in_msg" ::: ^"MsgEnvelope"; "out_msg" ::: ^"MsgEnvelope" ] ].
+
+(* ---- block headers, shard descriptors, outbound message descriptors ---- *)
+
+(* prev_blk_info$_ prev:ExtBlkRef = BlkPrevInfo 0;
+   prev_blks_info$_ prev1:^ExtBlkRef prev2:^ExtBlkRef = BlkPrevInfo 1; *)
+Definition spec_BlkPrevInfo_0 : tlayout :=
+  mkType TagBitwise [ mkCtor [] (tagged_obj "BlkPrevInfo" "prev_blk_info") [ "prev" ::: ty "ExtBlkRef" ] ].
+Definition spec_BlkPrevInfo_1 : tlayout :=
+  mkType TagBitwise
+    [ mkCtor [] (tagged_obj "BlkPrevInfo" "prev_blks_info") [ "prev1" ::: ^"ExtBlkRef"; "prev2" ::: ^"ExtBlkRef" ] ].
+
+(* block_info#9bc7a987 version:uint32 not_master:(## 1) after_merge:(## 1) before_split:(## 1)
+     after_split:(## 1) want_split:Bool want_merge:Bool key_block:Bool vert_seqno_incr:(## 1)
+     flags:(## 8) { flags <= 1 } seq_no:# vert_seq_no:# { vert_seq_no >= vert_seqno_incr }
+     { prev_seq_no:# } { ~prev_seq_no + 1 = seq_no }
+     shard:ShardIdent gen_utime:uint32 start_lt:uint64 end_lt:uint64
+     gen_validator_list_hash_short:uint32 gen_catchain_seqno:uint32 min_ref_mc_seqno:uint32
+     prev_key_block_seqno:uint32 gen_software:flags . 0?GlobalVersion master_ref:not_master?^BlkMasterInfo
+     prev_ref:^(BlkPrevInfo after_merge) prev_vert_ref:vert_seqno_incr?^(BlkPrevInfo 0) = BlockInfo;
+   (the implicit prev_seq_no occupies no bits; the class names seq_no / vert_seq_no `seqno` / `vert_seqno`;
+   deserialize returns None for an exotic cell) *)
+Definition spec_BlockInfo : tlayout :=
+  mkLayout (TagChunk (CkBytes 4))
+    [ mkCtor (hex "9bc7a987") (obj "BlockInfo")
+        [ "version" ::: FUint 32; "not_master" ::: FBit; "after_merge" ::: FBit; "before_split" ::: FBit;
+          "after_split" ::: FBit; "want_split" ::: FBool; "want_merge" ::: FBool; "key_block" ::: FBool;
+          "vert_seqno_incr" ::: FBit; "flags" ::: FUint 8; IGuard GLe (GName "flags") (GNum 1);
+          "seqno" ::: FUint 32; "vert_seqno" ::: FUint 32; "vert_seqno" >=! "vert_seqno_incr";
+          "shard" ::: ty "ShardIdent"; "gen_utime" ::: FUint 32; "start_lt" ::: FUint 64; "end_lt" ::: FUint 64;
+          "gen_validator_list_hash_short" ::: FUint 32; "gen_catchain_seqno" ::: FUint 32;
+          "min_ref_mc_seqno" ::: FUint 32; "prev_key_block_seqno" ::: FUint 32;
+          ICond (CLowBit "flags" 8) "gen_software" (ty "GlobalVersion");
+          ICond (CBit "not_master") "master_ref" (^"BlkMasterInfo");
+          IRefParam "prev_ref" "BlkPrevInfo" "after_merge";
+          ICond (CBit "vert_seqno_incr") "prev_vert_ref" (FRefType "BlkPrevInfo" [0%Z]) ] ]
+    None SpNone.
+
+(* shard_descr#b seq_no:uint32 reg_mc_seqno:uint32 start_lt:uint64 end_lt:uint64 root_hash:bits256
+     file_hash:bits256 before_split:Bool before_merge:Bool want_split:Bool want_merge:Bool nx_cc_updated:Bool
+     flags:(## 3) { flags = 0 } next_catchain_seqno:uint32 next_validator_shard:uint64 min_ref_mc_seqno:uint32
+     gen_utime:uint32 split_merge_at:FutureSplitMerge fees_collected:CurrencyCollection
+     funds_created:CurrencyCollection = ShardDescr;
+   shard_descr_new#a (the same fields) ... split_merge_at:FutureSplitMerge
+     ^[ fees_collected:CurrencyCollection funds_created:CurrencyCollection ] = ShardDescr;
+   (the object does not record which constructor it comes from: RObjAlt, false = shard_descr, true =
+   shard_descr_new; its attribute next_validator_shard_signed is computed from next_validator_shard and is not
+   part of the traced object) *)
+Local Notation shard_descr_common :=
+  [ "seq_no" ::: FUint 32; "reg_mc_seqno" ::: FUint 32; "start_lt" ::: FUint 64; "end_lt" ::: FUint 64;
+    "root_hash" ::: FBytes 32; "file_hash" ::: FBytes 32; "before_split" ::: FBool; "before_merge" ::: FBool;
+    "want_split" ::: FBool; "want_merge" ::: FBool; "nx_cc_updated" ::: FBool;
+    INamedConst "flags" (CkUint 3) (bin "000");
+    "next_catchain_seqno" ::: FUint 32; "next_validator_shard" ::: FUint 64; "min_ref_mc_seqno" ::: FUint 32;
+    "gen_utime" ::: FUint 32; "split_merge_at" ::: ty "FutureSplitMerge" ].
+Definition spec_ShardDescr : tlayout :=
+  mkType (TagChunk (CkBits 4))
+    [ mkCtor (hex "b") (RObjAlt "ShardDescr" [] false)
+        (shard_descr_common ++ [ "fees_collected" ::: cc; "funds_created" ::: cc ]);
+      mkCtor (hex "a") (RObjAlt "ShardDescr" [] true)
+        (shard_descr_common ++ [ IGroup [ ("fees_collected", cc); ("funds_created", cc) ] ]) ].
+
+(* msg_export_ext$000 msg:^(Message Any) transaction:^Transaction = OutMsg;
+   msg_export_imm$010 out_msg:^MsgEnvelope transaction:^Transaction reimport:^InMsg = OutMsg;
+   msg_export_new$001 out_msg:^MsgEnvelope transaction:^Transaction = OutMsg;
+   msg_export_tr$011  out_msg:^MsgEnvelope imported:^InMsg = OutMsg;
+   msg_export_deq$1100 out_msg:^MsgEnvelope import_block_lt:uint63 = OutMsg;
+   msg_export_deq_short$1101 msg_env_hash:bits256 next_workchain:int32 next_addr_pfx:uint64
+     import_block_lt:uint64 = OutMsg;
+   msg_export_tr_req$111 out_msg:^MsgEnvelope imported:^InMsg = OutMsg;
+   msg_export_deq_imm$100 out_msg:^MsgEnvelope reimport:^InMsg = OutMsg;
+   (docstring of class OutMsg; not in the shipped block.tlb)
+   msg_export_new_defer$10100 out_msg:^MsgEnvelope transaction:^Transaction = OutMsg;
+   msg_export_deferred_tr$10101 out_msg:^MsgEnvelope imported:^InMsg = OutMsg;
+   (the tag is read as load_bits(3), then load_bit(), then, for 1010, load_bits(1); the library used to label
+   msg_export_deq_short$1101 with type_ = "msg_export_deq": repaired) *)
+Definition spec_OutMsg : tlayout :=
+  mkType (TagChunks [(CkBits 3, true); (CkBit, true); (CkBits 1, false)])
+    [ mkCtor (bin "000") (RObj "OutMsg" [("out_msg", CNone); ("type_", CStr "msg_export_ext")])
+        [ "msg" ::: ^"MessageAny"; "transaction" ::: ^"Transaction" ];
+      mkCtor (bin "010") (RObj "OutMsg" [("msg", CNone); ("type_", CStr "msg_export_imm")])
+        [ "out_msg" ::: ^"MsgEnvelope"; "transaction" ::: ^"Transaction"; "reimport" ::: ^"InMsg" ];
+      mkCtor (bin "001") (RObj "OutMsg" [("msg", CNone); ("type_", CStr "msg_export_new")])
+        [ "out_msg" ::: ^"MsgEnvelope"; "transaction" ::: ^"Transaction" ];
+      mkCtor (bin "011") (RObj "OutMsg" [("msg", CNone); ("transaction", CNone); ("type_", CStr "msg_export_tr")])
+        [ "out_msg" ::: ^"MsgEnvelope"; "imported" ::: ^"InMsg" ];
+      mkCtor (bin "1101")
+        (RObj "OutMsg" [("msg", CNone); ("out_msg", CNone); ("transaction", CNone); ("type_", CStr "msg_export_deq_short")])
+        [ "msg_env_hash" ::: FBytes 32; "next_workchain" ::: FInt 32; "next_addr_pfx" ::: FUint 64;
+          "import_block_lt" ::: FUint 64 ];
+      mkCtor (bin "1100") (RObj "OutMsg" [("msg", CNone); ("transaction", CNone); ("type_", CStr "msg_export_deq")])
+        [ "out_msg" ::: ^"MsgEnvelope"; "import_block_lt" ::: FUint 63 ];
+      mkCtor (bin "111") (RObj "OutMsg" [("msg", CNone); ("transaction", CNone); ("type_", CStr "msg_export_tr_req")])
+        [ "out_msg" ::: ^"MsgEnvelope"; "imported" ::: ^"InMsg" ];
+      mkCtor (bin "100") (RObj "OutMsg" [("msg", CNone); ("transaction", CNone); ("type_", CStr "msg_export_deq_imm")])
+        [ "out_msg" ::: ^"MsgEnvelope"; "reimport" ::: ^"InMsg" ];
+      mkCtor (bin "10100") (RObj "OutMsg" [("msg", CNone); ("type_", CStr "msg_export_new_defer")])
+        [ "out_msg" ::: ^"MsgEnvelope"; "transaction" ::: ^"Transaction" ];
+      mkCtor (bin "10101")
+        (RObj "OutMsg" [("msg", CNone); ("transaction", CNone); ("type_", CStr "msg_export_deferred_tr")])
+        [ "out_msg" ::: ^"MsgEnvelope"; "imported" ::: ^"InMsg" ] ].
 
 (* ------------------------------------------------------------------------------------------------ *)
 (* The table: every layout above whose generated tree equals its compilation (Proofs/TlbProofs.v).
@@ -974,4 +1074,9 @@ Definition spec_table : stable :=
     ("Transaction", [], spec_Transaction);
     ("InMsg", [], spec_InMsg);
     ("ValueFlow", [], spec_ValueFlow);
-    ("AccountBlock", [], spec_AccountBlock) ].
+    ("AccountBlock", [], spec_AccountBlock);
+    ("BlkPrevInfo", [0%Z], spec_BlkPrevInfo_0);
+    ("BlkPrevInfo", [1%Z], spec_BlkPrevInfo_1);
+    ("BlockInfo", [], spec_BlockInfo);
+    ("ShardDescr", [], spec_ShardDescr);
+    ("OutMsg", [], spec_OutMsg) ].
